@@ -2,6 +2,7 @@ package rules
 
 import (
 	"fqverif/fw"
+	"strings"
 )
 
 func init() { Register("C10", runC10) }
@@ -16,4 +17,26 @@ func runC10(r *fw.Run, p *fw.Program) {
 	c10OptsRules(r, p)
 	c10JSONRules(r, p)
 	c10AliasRules(r, p)
+	// the range a value is displayed with (verbose range, hexdump of the value) is InnerRange / RootReader: for a
+	// root decoded from a sub-range of its buffer it keeps the start (borrowed from C05.rootbase)
+	{
+		sc := r.Scratch()
+		formB := c05Prov(sc, p)
+		c05RootBase(sc, p, formB)
+		r.Import(sc, "C05.rootbase", "C10.rootbase", "the range and bytes a value is displayed with are (RootReader, InnerRange): InnerRange keeps the start of a parentless root decoded from a sub-range of its buffer and is {0, Len} only for nested buffer roots, every value carries the reader its range refers to (C05.rootbase obligations)", 30, nil)
+	}
+	// what is displayed for a value is a function of the value and the options of this display: the dump code
+	// keeps nothing in package-level objects between displays (borrowed from C18.globals / C18.parked, pkg/interp)
+	{
+		sc := r.Scratch()
+		{
+			c18Globals(sc, p)
+			c18Parked(sc, p)
+			keep := func(k string) bool {
+				return strings.HasPrefix(k, "pkg/interp.") || strings.HasPrefix(k, "(*pkg/interp.") || strings.HasPrefix(k, "(pkg/interp.")
+			}
+			r.Import(sc, "C18.globals", "C10.nostate", "no display code in pkg/interp writes a package-level variable or parks state in a package-level library object (cache, pool, map): a dump is a function of the value and this display's options, not of earlier displays in the process (C18.globals / C18.parked obligations of pkg/interp)", 30, keep)
+			r.Import(sc, "C18.parked", "C10.nostate", "", 30, keep)
+		}
+	}
 }
